@@ -154,6 +154,28 @@ func (w *Walker) loopOne(s ast.Stmt, rng *ast.RangeStmt, fr *ast.ForStmt, body *
 			assigned[v] = append(assigned[v], n...)
 		}
 	}
+	// locals written by what the body calls inline (a closure incrementing a captured counter, a helper walked with the
+	// caller's environment): found in the probe's results, not in the body's own syntax
+	dyn := func(ss []*State) {
+		for _, p := range ss {
+			for v, t := range st.Env {
+				if pt, ok := p.Env[v]; ok && pt != t && (pt == nil || t == nil || pt.S != t.S) {
+					if _, have := assigned[v]; !have {
+						assigned[v] = nil
+					}
+				}
+			}
+		}
+	}
+	dyn(pouts)
+	dyn(lc.breaks)
+	dyn(lc.conts)
+	dyn(probe.exits)
+	if probe.inl != nil {
+		for _, r := range probe.inl.rets {
+			dyn([]*State{r.st})
+		}
+	}
 	h := st.clone()
 	var locs []string
 	for l := range preKilled {
@@ -939,6 +961,43 @@ func (w *Walker) pureResult(call *ast.CallExpr, fn *FuncInfo, recv *Term, args [
 				return append([]*Term{rsx[0].t}, manyFresh(nres-1)...)
 			}
 		}
+		// an accessor returning several values at once (`return c.BlockIndex, c.ViewNumber`): each result is its term
+		if rs, ok := fn.Decl.Body.List[0].(*ast.ReturnStmt); ok && len(rs.Results) > 1 && len(rs.Results) == nres {
+			allPlain := true
+			for _, re := range rs.Results {
+				if isBoolExpr(fn.Pkg.TypesInfo, re) {
+					allPlain = false
+				}
+			}
+			if allPlain {
+				sub := &Walker{A: w.A, Fn: fn, info: fn.Pkg.TypesInfo, record: false, depth: w.depth + 1, budget: 2000}
+				b := st.clone()
+				if fn.RecvVar != nil {
+					rt := recv
+					if rt == nil {
+						rt = w.A.recvRoot(fn)
+					}
+					b.Env[fn.RecvVar] = adaptRecv(rt, fn, w.A)
+				}
+				for j, p := range fn.Params {
+					if j < len(args) {
+						b.Env[p] = args[j]
+					}
+				}
+				var ts []*Term
+				for _, re := range rs.Results {
+					rsx := sub.eval(re, b)
+					if len(rsx) != 1 {
+						ts = nil
+						break
+					}
+					ts = append(ts, rsx[0].t)
+				}
+				if len(ts) == nres {
+					return ts
+				}
+			}
+		}
 	}
 	name := fn.Name
 	t := mkTerm(KCall, "fn:"+name, args...)
@@ -1046,6 +1105,7 @@ func (w *Walker) inlineCallMode(fn *FuncInfo, recv *Term, args []*Term, st *Stat
 		if w.rec == nil {
 			sub.siteOwner = w.sfn()
 		}
+		sub.cnt = w.cnt // a counter of the caller may be incremented by a function value called in the helper's loop
 	}
 	b := st.clone()
 	if fn.RecvVar != nil {
